@@ -72,7 +72,7 @@ def run(key):
     f1 = M.fields(model, m1)
     w1 = M.weight_full(model, m1, shape)
     # 20 EM iterations amplify rounding (un-normalised covariances reach 1e3): one more decade
-    rt = 1e-5 if model == 'cbmm' else (5e-4 if c['single'] else tol.ITER * (10 if its > 5 else 1))
+    rt = 1e-7 if model == 'cbmm' else (5e-4 if c['single'] else tol.ITER * (10 if its > 5 else 1))
     n = 0
     for perm in perms_for(K, thorough):
         perm = list(perm)
@@ -116,6 +116,55 @@ def run(key):
     return ok(outcome=tol.digest(np.asarray(post1)), evals=n + 1)
 
 
+PA_GRID = (0.0, -1.0, -3.0)
+
+
+def run_builtin_pa(key):
+    """the built-in spatial/spectral alignment of the integration models on one frequency: relabelling the
+    classes of both streams (and the weights) relabels the posterior - every table over a 3-value grid, every
+    relabelling; tables on which two arrangements tie for the maximal criterion are not judged."""
+    from pb_bss.distribution.mixture_model_utils import (
+        log_pdf_to_affiliation_for_integration_models_with_inline_pa as f_pa)
+    K, T, idx, wkind = key['K'], key['T'], key['idx'], key['w']
+    n = K * T
+    digits = []
+    x = idx
+    for _ in range(2 * n):
+        digits.append(PA_GRID[x % 3])
+        x //= 3
+    sp = np.array(digits[:n]).reshape(1, K, T)
+    se = np.array(digits[n:]).reshape(1, K, T)
+    w = np.full((K, 1), 1.0 / K) if wkind == 'uniform' else \
+        (np.arange(1, K + 1, dtype=float) / np.arange(1, K + 1).sum())[:, None]
+    # criterion of every arrangement (reference, loops): ties make the choice order dependent
+    crit = []
+    for p_ in itertools.permutations(range(K)):
+        L = sp[0][list(p_)] + se[0]
+        g = np.exp(L - L.max(0, keepdims=True))
+        g = g / g.sum(0, keepdims=True)
+        crit.append(float(np.sum(g * L)))
+    top = max(crit)
+    if sum(1 for c_ in crit if c_ >= top - 1e-9 * (1 + abs(top))) > 1:
+        return trivial('two arrangements tie for the maximal criterion')
+    try:
+        base = f_pa(weight=w, spatial_log_pdf=sp, spectral_log_pdf=se, affiliation_eps=0.)
+    except Exception as e:  # noqa
+        return viol(f'built-in alignment raised {e!r}')
+    n_ = 0
+    for perm in itertools.permutations(range(K)):
+        perm = list(perm)
+        try:
+            got = f_pa(weight=np.ascontiguousarray(w[perm]), spatial_log_pdf=np.ascontiguousarray(sp[:, perm]),
+                       spectral_log_pdf=np.ascontiguousarray(se[:, perm]), affiliation_eps=0.)
+        except Exception as e:  # noqa
+            return viol(f'built-in alignment raised {e!r} for the relabelled tables')
+        bad = tol.mismatch(got, base[:, perm], tol.TIGHT, what=f'built-in alignment under relabelling {perm}')
+        if bad:
+            return viol(bad)
+        n_ += 1
+    return ok(outcome=tol.digest(base), evals=n_ + 1)
+
+
 def subchecks(tier, seed):
     thorough = tier == 'thorough'
     SP = c01.SPACE
@@ -144,12 +193,36 @@ def subchecks(tier, seed):
                         if t not in seen:
                             seen.add(t)
                             yield t
+        # nearly tied classes (uniform start with a jitter of 1e-5): nothing may depend on the class index of a
+        # neighbouring, almost equal class
+        for its in (1, 2, 5):
+            for K in (2, 3):
+                for p in SP.deviations(1 if thorough else 0,
+                                       fixed=dict(base_fixed, iterations=its, K=K, start='near_uniform'),
+                                       core=('model',)):
+                    if p['aligner'] != 'none' or p['single']:
+                        continue
+                    t = SP.tup(p) + (seed, thorough)
+                    if t not in seen:
+                        seen.add(t)
+                        yield t
         # pairs of the options that interact with the class axis
         for p in SP.full(('model', 'wca', 'saliency', 'mask'), fixed=dict(iterations=2, K=3)):
             t = SP.tup(p) + (seed, thorough)
             if t not in seen and p['model'] != 'cbmm':
                 seen.add(t)
                 yield t
+    def pa_cases():
+        for (K, T) in ((2, 1), (2, 2), (3, 1)) + (((3, 2),) if thorough else ()):
+            for idx in range(3 ** (2 * K * T)):
+                for w in ('uniform', 'graded'):
+                    if K == 3 and T == 2 and (idx % 7 or w == 'graded'):
+                        continue
+                    yield (K, T, idx, w)
     return [Sub('relabelling', names, cases, run,
                 bound=dict(deviations=d, K=[2, 3, 4] + ([5] if thorough else []), iterations=[1, 2, 5, 20]),
-                min_nontrivial=300)]
+                min_nontrivial=300),
+            Sub('builtin_alignment_relabelling', ('K', 'T', 'idx', 'w'), pa_cases, run_builtin_pa,
+                bound=dict(grid=list(PA_GRID), tables='all spatial x spectral tables (K,T) in (2,1),(2,2),(3,1)'
+                           + ('; every 7th of (3,2)' if thorough else ''), relabellings='all K!'),
+                min_nontrivial=200)]
